@@ -578,3 +578,55 @@ def sustain_subsets(g: bool, r: bool, y: bool, b: bool, o: bool, base: int, odd:
         mx = base + delta
     ok = ok and NoteEvent._longest_sustain(got) == mx
     return done(ok)
+
+
+# ---------------------------------------------------------------------------------------------
+# C02 at file scale: thousands of note lines; a same-tick pair at a solver-chosen position
+# ---------------------------------------------------------------------------------------------
+BIGN = H.part("VF_BIGN", 8200)
+BOUNDARIES = [1, 63, 64, 255, 256, 1023, 1024, 2047, 2048, 4095, 4096, 8191, 8192]
+
+
+class _CheapDatum:
+    __slots__ = ("tick", "k")
+
+    def __init__(self, tick, k):
+        self.tick, self.k = tick, k
+
+
+def grouping_loop_large(bi: int, width: int) -> bool:
+    """
+    pre: 0 <= bi < len(BOUNDARIES) and 2 <= width <= 3
+    post: _
+    """
+    # BIGN data with distinct ticks except one run of `width` equal ticks that ends / straddles the
+    # solver-chosen position (sizes where batching or windowing schemes typically split)
+    pos = H.pick(BOUNDARIES, bi)
+    width = H.pick([2, 3], width - 2)
+    with H.untraced():
+        ticks, t = [], 0
+        for k in range(BIGN):
+            if not (pos - 1 < k <= pos - 1 + (width - 1)):
+                t += 1
+            ticks.append(t)
+        datas = [_CheapDatum(ticks[k], k) for k in range(BIGN)]
+        calls = []
+
+        def rec(cls, ds, prev_event, star_power_events, bpm_ev, proximal_bpm_event_index=0, star_power_event_index=0):
+            calls.append([d.k for d in ds])
+            return _Sentinel(len(calls) - 1), 0, 0
+
+        saved = NoteEvent.__dict__["from_parsed_data"]
+        try:
+            NoteEvent.from_parsed_data = classmethod(rec)
+            out = InstrumentTrack._build_note_events_from_data(datas, [], object())
+        finally:
+            NoteEvent.from_parsed_data = saved
+        want, k = [], 0
+        while k < BIGN:
+            j = k
+            while j + 1 < BIGN and ticks[j + 1] == ticks[k]:
+                j += 1
+            want.append(list(range(k, j + 1)))
+            k = j + 1
+        return done(calls == want and len(out) == len(want))
